@@ -36,14 +36,14 @@ theorem merge_any_adjacent_pair (i : Nat) (l : List (K × K))
     mass (mergeAt i l) = mass l ∧ wsum (mergeAt i l) = wsum l ∧
     (i + 1 < l.length → (mergeAt i l).length + 1 = l.length) ∧
     ∀ x ∈ mergeAt i l, (∃ y ∈ l, y.1 ≤ x.1) ∧ (∃ z ∈ l, x.1 ≤ z.1) :=
-  ⟨mergeAt_inc i l hinc hpos, mergeAt_pos i l hinc hpos, mergeAt_mass i l, mergeAt_wsum i l hpos,
+  ⟨mergeAt_inc i l hinc hpos, mergeAt_pos i l hinc hpos, mergeAt_mass i l, mergeAt_wsum i l hinc hpos,
    mergeAt_length i l, fun x hx => ⟨(mergeAt_mem i l hinc hpos x hx).1, (mergeAt_mem i l hinc hpos x hx).2.1⟩⟩
 
 /-- The merged centre is strictly between the two it replaces and carries both weights exactly. -/
 theorem centroid_between_and_exact {v1 f1 v2 f2 : K} (hv : v1 < v2) (h1 : 0 < f1) (h2 : 0 < f2) :
     v1 < centroid v1 f1 v2 f2 ∧ centroid v1 f1 v2 f2 < v2 ∧
     centroid v1 f1 v2 f2 * (f1 + f2) = v1 * f1 + v2 * f2 :=
-  ⟨centroid_gt hv h1 h2, centroid_lt hv h1 h2, centroid_mul h1 h2⟩
+  ⟨centroid_gt hv h1 h2, centroid_lt hv h1 h2, centroid_mul hv h1 h2⟩
 
 /-- **Bins are strictly increasing in value** after every history. -/
 theorem bins_strictly_increasing (h : Built s L B) : s.bins.Pairwise (fun a b => a.1 < b.1) :=
@@ -183,15 +183,32 @@ theorem merge_bounds_not_exact :
 /-! ## Stage 2: the faithful machine (cached differences, exact hit, in-place shortcut) -/
 
 /-- **The arithmetic of the source is the arithmetic of the reference** (definitions regenerated from
-the AST of `distogram/__init__.py` on every run): `_trim` stores the weighted centroid and the sum of
-counts; `_trim_in_place` stores the same centroid for (neighbour, new value) in either order. -/
+the AST of `distogram/__init__.py` on every run): `_trim` computes the weighted centroid and the sum of
+counts; `_trim_in_place` computes the same centroid for (neighbour, new value) in either order; and what both
+*store* — the computed centre kept within the pair it replaces, `min(max(centre, lo), hi)` — is that centroid
+whenever the pair is in order and the counts are positive (the guard only ever acts on rounding). -/
 theorem source_merge_arithmetic (v1 f1 v2 f2 : K) :
     Gen.DistogramExpr.trimCentre v1 f1 v2 f2 = (v1 * f1 + v2 * f2) / (f1 + f2) ∧
     Gen.DistogramExpr.trimCount v1 f1 v2 f2 = f1 + f2 ∧
-    Gen.DistogramExpr.inPlaceCentre v1 f1 v2 f2 = centroid v1 f1 v2 f2 ∧
-    Gen.DistogramExpr.inPlaceCentre v1 f1 v2 f2 = centroid v2 f2 v1 f1 ∧
-    Gen.DistogramExpr.inPlaceCount v1 f1 v2 f2 = f1 + f2 :=
-  ⟨rfl, rfl, (inPlace_centre_eq v1 f1 v2 f2).1, (inPlace_centre_eq v1 f1 v2 f2).2.1, rfl⟩
+    Gen.DistogramExpr.inPlaceCentre v1 f1 v2 f2 = Gen.DistogramExpr.trimCentre v1 f1 v2 f2 ∧
+    Gen.DistogramExpr.inPlaceCentre v1 f1 v2 f2 = Gen.DistogramExpr.trimCentre v2 f2 v1 f1 ∧
+    Gen.DistogramExpr.inPlaceCount v1 f1 v2 f2 = f1 + f2 ∧
+    (v1 < v2 → 0 < f1 → 0 < f2 →
+      centroid v1 f1 v2 f2 = (v1 * f1 + v2 * f2) / (f1 + f2) ∧
+      Gen.DistogramOps.inPlaceStored (Gen.DistogramExpr.inPlaceCentre v1 f1 v2 f2) v1 v2 = centroid v1 f1 v2 f2 ∧
+      Gen.DistogramOps.inPlaceStored (Gen.DistogramExpr.inPlaceCentre v2 f2 v1 f1) v2 v1 = centroid v1 f1 v2 f2) :=
+  ⟨rfl, rfl, (inPlace_centre_eq v1 f1 v2 f2).1, (inPlace_centre_eq v1 f1 v2 f2).2.1, rfl,
+   fun hv h1 h2 => ⟨centroid_eq hv h1 h2, inPlace_stored_left hv h1 h2, inPlace_stored_right hv h2 h1⟩⟩
+
+/-- **The stored centre of a merge lies within the pair it replaces — whatever the division computed.**  No
+hypothesis on the computed centre `c`: this is the statement that survives floating-point rounding (it uses only that
+the order is total), and the reason the centres stay strictly increasing and inside `[min, max]` when neighbouring
+doubles with large counts, or float64 and numpy.float128 centres after a `dump()`, are merged.  `_trim` stores
+`trimStored c v1 v2 ∈ [v1, v2]`, `_trim_in_place` stores `inPlaceStored c sv nv` between the bin and the new value. -/
+theorem stored_centre_within_pair (c v1 v2 : K) :
+    (v1 ≤ v2 → v1 ≤ Gen.DistogramOps.trimStored c v1 v2 ∧ Gen.DistogramOps.trimStored c v1 v2 ≤ v2) ∧
+    min v1 v2 ≤ Gen.DistogramOps.inPlaceStored c v1 v2 ∧ Gen.DistogramOps.inPlaceStored c v1 v2 ≤ max v1 v2 :=
+  ⟨fun h => trimStored_within c h, inPlaceStored_within c v1 v2⟩
 
 /-- **The control flow of the source is the control flow of the model** (definitions regenerated from the AST of
 `_trim` and `update` on every run): `_trim` *loops* while there are more bins than the limit; a count `<= 0` is
@@ -215,6 +232,85 @@ theorem source_control_flow (n len cap idx : Nat) (neg : Bool) (value first last
   refine ⟨trimTurns_eq n, by simp [Gen.DistogramFlow.trimGuard], by simp [Gen.DistogramFlow.updCountBad],
     by simp [Gen.DistogramFlow.updFirst], by simp [Gen.DistogramFlow.updLast], rfl, eqK_iff' vi value, rfl,
     inPlaceTry_eq neg idx len cap, bumpBounds_min h value, bumpBounds_max h value⟩
+
+/-- **The statements around the update path are the model's** (`Gen.DistogramOps.*`, regenerated from the AST of
+`Distogram.__add__`, `Distogram.bulkload`, `update`, `_update_diffs` and `_trim` on every run).  The two bound updates
+of `update` are independent statements (`if … if …`; with `if … elif …` the first value of a stream would set the
+minimum only); `__add__` takes the operand's bounds iff `operand.min is not None` (a truthiness test would drop a
+bound of exactly zero) and forms the smaller minimum / larger maximum, as does `bulkload`, which inserts the pairs
+with `count > 0`, takes the data's bounds when it has none, and goes through numpy.histogram only for *more* than
+`limit * bulkFactor` distinct values; an append lowers the cached minimum to the new last gap; `_update_diffs(h, i)`
+refreshes the gap left of bin `i` iff `i > 0` and the gap right of it iff `i + 1 < len(bins)`, storing
+`bins[j+1] - bins[j]`, recomputing the minimum iff an overwritten entry equalled it and lowering it iff the new gap is
+smaller; a turn of `_trim` keeps bin `i`, pops bin `i + 1`, pops cache entry `i` and refreshes the cache around `i`. -/
+theorem source_operations (i len distinct cap : Nat) (a b old md nd : K) (omin omax : Option K) :
+    Gen.DistogramOps.bumpChained = false ∧
+    Gen.DistogramOps.addGuard omin omax = omin.isSome ∧
+    Gen.DistogramOps.addMin a b = min a b ∧ Gen.DistogramOps.addMax a b = max a b ∧
+    (Gen.DistogramOps.bulkAbove (distinct : Int) (cap : Int) = true ↔ cap * Gen.Distogram.bulkFactor < distinct) ∧
+    (Gen.DistogramOps.bulkTake a = true ↔ 0 < a) ∧
+    Gen.DistogramOps.bulkFresh omin omax = omin.isNone ∧
+    Gen.DistogramOps.bulkMin a b = min a b ∧ Gen.DistogramOps.bulkMax a b = max a b ∧
+    Gen.DistogramOps.appendMinDiff a b = min a b ∧
+    Gen.DistogramOps.udLeft (i : Int) (len : Int) = decide (0 < i) ∧
+    Gen.DistogramOps.udRight (i : Int) (len : Int) = decide (i + 1 < len) ∧
+    (Gen.DistogramOps.udStale old md = true ↔ old = md) ∧
+    (Gen.DistogramOps.udLower nd md = true ↔ nd < md) ∧
+    Gen.DistogramOps.udGap a b = b - a ∧
+    Gen.DistogramOps.trimKeep i = i ∧ Gen.DistogramOps.trimPopBin i = i + 1 ∧
+    Gen.DistogramOps.trimPopDiff i = i ∧ Gen.DistogramOps.trimRefresh i = i := by
+  have hmin : ∀ x y : K, Gen.DistogramOps.pyMin x y = min x y := by
+    intro x y; rw [pyMin_def, min_def]; split_ifs <;> first | rfl | (apply le_antisymm <;> linarith) | (exfalso; linarith)
+  have hmax : ∀ x y : K, Gen.DistogramOps.pyMax x y = max x y := by
+    intro x y; rw [pyMax_def, max_def]; split_ifs <;> first | rfl | (apply le_antisymm <;> linarith) | (exfalso; linarith)
+  refine ⟨bumpChained_eq, rfl, hmin a b, hmax a b, bulkAbove_iff distinct cap, by simp [Gen.DistogramOps.bulkTake], rfl,
+    hmin a b, hmax a b, hmin a b, by simp [Gen.DistogramOps.udLeft], ?_, eqK_iff' old md,
+    by simp [Gen.DistogramOps.udLower], rfl, rfl, rfl, rfl, rfl⟩
+  unfold Gen.DistogramOps.udRight
+  exact decide_eq_decide.mpr (by omega)
+
+/-- **The model's `+`, bulk load, cache refresh and trim turn are these statements** — the equations the history
+proofs (`faithful_*`, `refines_reference`, `cache_coherent`) unfold.  Each is proved from the generated definitions, so
+a change of one of the statements above breaks the corresponding equation by name. -/
+theorem source_operations_assembled (h t : Hist K) (pairs : List (K × K)) (lo hi : K) (i : Nat) :
+    (add h t = (merge h t.bins).bind fun m =>
+      match m.min, m.max, t.min, t.max with
+      | some a, some b, some c, some d =>
+        .ok { m with min := some (if c < a then c else a), max := some (if b < d then d else b) }
+      | _, _, none, _ => .ok m
+      | _, _, _, _ => .error "TypeError") ∧
+    (bulk h pairs lo hi =
+      ((pairs.filter (fun p => decide (0 < p.2))).foldlM (fun acc b => update acc b.1 b.2) h).bind fun m =>
+      match m.min, m.max with
+      | some a, some b =>
+        .ok { m with min := some (if lo < a then lo else a), max := some (if b < hi then hi else b) }
+      | none, _ => .ok { m with min := some lo, max := some hi }
+      | some _, none => .error "TypeError") ∧
+    (updateDiffs h i = match h.diffs with
+      | none => .ok h
+      | some d0 =>
+        (diffBlock h.bins (d0, h.minDiff, false) (decide (0 < i)) (i - 1)).bind fun s1 =>
+        (diffBlock h.bins s1 (decide (i + 1 < h.bins.length)) i).bind fun s2 =>
+        (finishMin s2).bind fun md =>
+        .ok { h with diffs := some s2.1, minDiff := md }) :=
+  ⟨add_def h t, bulk_def h pairs lo hi, updateDiffs_def h i⟩
+
+/-- **The first value of a stream sets both bounds** (and so does every later one that is a new extreme): after a
+successful `update` of the *empty* histogram the minimum and the maximum are both the inserted value — single-value
+streams, streams whose first value is the largest, strictly descending streams. -/
+theorem first_value_sets_both_bounds {cap : Nat} {h' : Hist K} {v c : K} (hcap : 1 ≤ cap) (hc1 : 1 ≤ c)
+    (hok : update (Hist.init cap) v c = .ok h') :
+    h'.min = some v ∧ h'.max = some v ∧ h'.bins = [(v, c)] := by
+  have hinv : Inv (Hist.init cap : Hist K).toR := init_inv cap hcap
+  have h1 : ∀ b ∈ (Hist.init cap : Hist K).bins, 1 ≤ b.2 := by intro b hb; simp [Hist.init] at hb
+  obtain ⟨_, _, _, _, mn, mx, _⟩ := update_inv (coherent_init cap) hinv h1 hc1 hok
+  have hb : h'.bins = [(v, c)] := by
+    have hc0 : cap ≠ 0 := by omega
+    have hnt : updateTie (Hist.init cap : Hist K).toR v c = false := by
+      simp [updateTie, Hist.toR, Hist.init, insertRef, trimTie, hc0]
+    have hb := congrArg RState.bins (update_sim (coherent_init cap) hinv h1 hok hnt)
+    simpa [Hist.toR, Hist.init, updateRef, insertRef, trimRef, hc0] using hb
+  exact ⟨by simpa [Hist.init, minO] using mn, by simpa [Hist.init, maxO] using mx, hb⟩
 
 /-- **cache_coherent**: after every operation of the faithful machine — any tree of successful
 `update`, bare `merge`, `+`, bulk load and dump/load — whenever `diffs` is set the histogram is not
